@@ -98,6 +98,18 @@ class FormRunner:
         self.tol = refeval.Tol(self.scalar_type, self.options.get("table_rtol", 1e-6), self.options.get("table_atol", 1e-9))
         return self
 
+    def attach_jit(self, compiled_form, jit_module):
+        """Use a form object returned by ffcx.codegeneration.jit.compile_forms."""
+        class _M:
+            pass
+
+        m = _M()
+        m.ffi = jit_module.ffi
+        m.lib = jit_module.lib
+        m.objects = [compiled_form]
+        m.source = ""
+        return self.attach(m, 0)
+
     def groups(self):
         """[(itype, id)] present in the compiled descriptor, in descriptor order."""
         out = []
@@ -132,11 +144,14 @@ class FormRunner:
             pos += n
         return out
 
-    def run_group(self, itype, sid, data: inputs.FormData, entity=(0, 0), perm=None, A0=None, poison=None, poison_disabled=False):
+    def run_group(self, itype, sid, data: inputs.FormData, entity=(0, 0), perm=None, A0=None, poison=None, poison_disabled=False,
+                  diagonal=False):
         """Apply the kernels listed under (itype, sid) one after another; returns CallResult-like."""
         width = 2 if itype == "interior_facet" else 1
         dims = [e.dim for e in self.fd.argument_elements]
         shape = tuple(width * d for d in dims)
+        if diagonal and len(shape) == 2:
+            shape = shape[:1]
         ocoefs = self.form.coefficients()
         w = inputs.pack_w(ocoefs, self.desc["original_coefficient_positions"], data, width)
         c = inputs.pack_c(self.form.constants(), data)
